@@ -103,6 +103,8 @@ def validate(traces, rep, max_cores=14):
         starts.append(len(lines))
         lines += trace_lines(t)
     text = "\n".join(json.dumps(x) for x in lines) + "\n"
+    # room for every core of the longest execution (core numbers start at 0; join events name cores as well)
+    max_cores = max([max_cores] + [x.get("c", 0) + 2 for x in lines if x["e"] not in ("WaitRLock", "WatchRLock")])
     cfgt = ("SPECIFICATION TraceSpec\nCONSTANTS\n Variant = \"fixed\"\n MaxCores = %d\n MaxSpawns = 100\n MaxFatal = 100\n"
             " MaxCalls = 100\n AllowCancel = TRUE\n InitWork = 0\n RecordHist = FALSE\n StrictCancel = FALSE\n"
             " MaxJoins = 100000\n JoinParentOnly = FALSE\n Watch = \"fixed\"\n"
